@@ -133,6 +133,8 @@ func DrawSpec(t *kernel.Tape, cold bool) *Spec {
 	for i := 0; i < 2; i++ {
 		s.DSTs = append(s.DSTs, append(bytes.Repeat([]byte{byte('a' + i)}, 256+t.Choose("fixture", "longdst", 64)), byte(i)))
 	}
+	// an empty tag is refused by hash-to-curve: a failing call among the others
+	s.DSTs = append(s.DSTs, []byte{})
 	s.OptEnc = t.Choose("fixture", "opt.enc", 3)
 	s.OptSelf = t.Bool("fixture", "opt.self")
 	s.OptRejMal = t.Bool("fixture", "opt.rejmal")
@@ -170,20 +172,30 @@ func Build(s *Spec) (*Fixture, error) {
 	}
 	for i, b := range s.PrivBytes {
 		// The shared objects are only constructed, never used, before the
-		// concurrent phase (so that any lazily computed per-object state is
-		// cold); ready-made signatures come from separate instances.
+		// concurrent phase, so that any lazily computed per-object state -
+		// including a private key's public half - is first touched by the
+		// tasks.  Ready-made signatures, encodings and the standalone public
+		// keys come from separate instances.
 		k, err := secec.NewPrivateKey(b)
 		if err != nil {
 			return nil, fmt.Errorf("NewPrivateKey: %v", err)
 		}
 		fx.privs = append(fx.privs, k)
-		fx.pubs = append(fx.pubs, k.PublicKey())
+		pk, err := secec.NewPublicKey(fx.modelQ[i].Uncompressed())
+		if err != nil {
+			return nil, fmt.Errorf("NewPublicKey: %v", err)
+		}
+		fx.pubs = append(fx.pubs, pk)
 		sk, err := bitcoin.NewSchnorrPrivateKey(b)
 		if err != nil {
 			return nil, fmt.Errorf("NewSchnorrPrivateKey: %v", err)
 		}
 		fx.sprivs = append(fx.sprivs, sk)
-		fx.spubs = append(fx.spubs, sk.PublicKey())
+		spk, err := bitcoin.NewSchnorrPublicKey(ref.I2OSP32(fx.modelQ[i].X))
+		if err != nil {
+			return nil, fmt.Errorf("NewSchnorrPublicKey: %v", err)
+		}
+		fx.spubs = append(fx.spubs, spk)
 
 		aux, _ := secec.NewPrivateKey(b)
 		r, sg, v, err := aux.SignRaw(secec.RFC6979SHA256(), s.Digests[0])
@@ -203,6 +215,19 @@ func Build(s *Spec) (*Fixture, error) {
 		fx.schSigs = append(fx.schSigs, ss)
 		fx.pubEncs = append(fx.pubEncs, aux.PublicKey().ASN1Bytes())
 	}
+	// malformed signatures (they must be rejected, and rejecting them must
+	// not disturb anybody else): r >= p / s >= n for Schnorr, r = 0 and
+	// s >= n for ECDSA, truncated DER
+	nBytes, pBytes := ref.I2OSP32(ref.N), ref.I2OSP32(ref.P)
+	good := fx.schSigs[0]
+	fx.schSigs = append(fx.schSigs,
+		append(append([]byte(nil), pBytes...), good[32:]...),
+		append(append([]byte(nil), good[:32]...), nBytes...),
+		bytes.Repeat([]byte{0xff}, 64))
+	fx.sigCompact = append(fx.sigCompact, make([]byte, 64), append(append([]byte(nil), fx.sigCompact[0][:32]...), nBytes...))
+	fx.sigRec = append(fx.sigRec, make([]byte, 65), append(append(append([]byte(nil), fx.sigRec[0][:32]...), nBytes...), 0))
+	fx.sigASN1 = append(fx.sigASN1, fx.sigASN1[0][:len(fx.sigASN1[0])-1], []byte{0x30, 0x06, 0x02, 0x01, 0x00, 0x02, 0x01, 0x01})
+	fx.sigBIP66 = append(fx.sigBIP66, fx.sigASN1[0])
 	// a public key that exists only as a public key
 	if extra, err := secec.NewPublicKey(ref.BaseMul(big.NewInt(424242)).Compressed()); err == nil {
 		fx.pubs = append(fx.pubs, extra)
